@@ -53,7 +53,7 @@ var goodDocs = map[string]string{
 	"g1": "apiVersion: v1\nkind: Namespace\nmetadata:\n  name: ns1\n  labels:\n    team: x\n",
 	"g2": "apiVersion: apps/v1\nkind: Deployment\nmetadata:\n  name: a\n  namespace: ns1\nspec:\n  selector:\n    matchLabels:\n      app: a\n  template:\n    metadata:\n      labels:\n        app: a\n    spec:\n      containers:\n      - name: c\n        image: img\n        ports:\n        - containerPort: 80\n",
 	"g3": "apiVersion: apps/v1\nkind: Deployment\nmetadata:\n  name: b\n  namespace: ns1\nspec:\n  selector:\n    matchLabels:\n      app: b\n  template:\n    metadata:\n      labels:\n        app: b\n    spec:\n      containers:\n      - name: c\n        image: img\n",
-	"g4": "apiVersion: networking.k8s.io/v1\nkind: NetworkPolicy\nmetadata:\n  name: np1\n  namespace: ns1\nspec:\n  podSelector:\n    matchLabels:\n      app: a\n  ingress:\n  - from:\n    - podSelector:\n        matchLabels:\n          app: b\n    ports:\n    - port: 80\n",
+	"g4": "apiVersion: networking.k8s.io/v1\nkind: NetworkPolicy\nmetadata:\n  name: np1\n  namespace: ns1\nspec:\n  podSelector:\n    matchLabels:\n      app: a\n  ingress:\n  - from:\n    - namespaceSelector:\n        matchLabels:\n          team: x\n      podSelector:\n        matchLabels:\n          app: b\n    ports:\n    - port: 80\n",
 }
 
 // the other side of diff scenarios: same workloads, a different policy
@@ -71,6 +71,11 @@ var badSchemaDocs = []string{
 	"apiVersion: apps/v1\nkind: Deployment\nmetadata:\n  name: bad%d\n  namespace: ns1\nspec:\n  replicas: many\n  template:\n    metadata:\n      labels:\n        app: a\n",
 	"apiVersion: v1\nkind: Pod\nmetadata:\n  name: bad%d\n  namespace: ns1\n  labels: [a, b]\nspec:\n  containers: []\n",
 	"apiVersion: networking.k8s.io/v1\nkind: NetworkPolicy\nmetadata:\n  name: bad%d\n  namespace: ns1\nspec:\n  podSelector: {}\n  ingress:\n    from: wrong\n",
+	// a malformed Namespace document that carries the NAME of the good namespace and other labels: it must be reported and dropped,
+	// not used (the good policy selects by the namespace's labels)
+	"apiVersion: v1\nkind: Namespace\nmetadata:\n  name: ns1\n  labels:\n    team: y%d\nspec:\n  finalizers: kubernetes\n",
+	"apiVersion: v1\nkind: Service\nmetadata:\n  name: bad%d\n  namespace: ns1\nspec:\n  selector:\n    app: a\n  ports: not-a-list\n",
+	"apiVersion: policy.networking.k8s.io/v1alpha1\nkind: AdminNetworkPolicy\nmetadata:\n  name: bad%d\nspec:\n  priority: high\n  subject:\n    namespaces: {}\n",
 }
 
 var brokenFiles = []string{
